@@ -1,6 +1,6 @@
 CONSTANTS
-  MaxLen = 6
-  Sample = 400
+  MaxLen = 5
+  Sample = 300
 INIT Init
 NEXT Next
 VIEW View
